@@ -330,6 +330,53 @@ def run(ctx):
         events.append(heap_event("after further loads of " + name, [("A", a), ("B", b), ("C", c3), ("D", a2)]))
         ctx.count_case(("fixture-twice", name))
         traces.append({"id": "fixture/" + name, "events": events})
+    # read-only API surface must not change the object it is called on (nor class-level state)
+    def pure(tid, o, calls):
+        events = []
+        for nm, fn in calls:
+            sb, bb, pj0 = digest(o, spec)
+            try:
+                fn()
+            except Exception:
+                continue
+            sa, ba, pj1 = digest(o, spec)
+            events.append({"op": "mutate", "kind": "read-only:" + nm, "provenance": tid, "state_before": sb, "state_after": sa,
+                           "bytes_before": bb, "bytes_after": ba, "diff": first_diff(pj0, pj1)})
+            ctx.count_case(("pure", tid, nm))
+        events.append(heap_event("read-only calls on " + tid, [("A", o)]))
+        traces.append({"id": "pure/" + tid, "events": events})
+    for t in types_:
+        mod = gen.rand_module(rnd, cl[t], spec, depth=1, in_project=False)
+        calls = [("repr", lambda: repr(mod)), ("clone", lambda: mod.clone()), ("Synth.read", lambda: api.Synth(mod).read()),
+                 ("get_raw", lambda: [mod.get_raw(n) for n in type(mod).controllers if type(mod).controllers[n].attached(mod)]),
+                 ("pattern_value", lambda: [c.pattern_value(mod, getattr(mod, n)) for n, c in type(mod).controllers.items()
+                                            if isinstance(getattr(mod, n), int) and not isinstance(getattr(mod, n), bool)]),
+                 ("int(visualization)", lambda: int(mod.visualization)), ("dir", lambda: dir(mod))]
+        pure(t, mod, calls)
+    for i in range(3 if q else 30):
+        pj = gen.rand_project(rnd, spec, depth=1, small=True, nmods=rnd.randrange(2, 5))
+        pats = [x for x in pj.patterns if isinstance(x, api.Pattern)]
+        calls = [("read", lambda: pj.read()), ("clone", lambda: pj.clone()),
+                 ("pattern_lines", lambda: list(pj.pattern_lines(0, 8)) if pats and all(x is not None for x in pj.patterns) else None),
+                 ("tabular_repr", lambda: [x.tabular_repr() for x in pats]),
+                 ("note-accessors", lambda: [(str(n), n.is_empty(), n.clone(), n.module_index, n.controller, n.effect, n.val_xx, n.val_yy, n.mod)
+                                             for x in pats for line in x.data for n in line]),
+                 ("module_index", lambda: [pj.module_index(m) for m in pj.modules if m is not None]),
+                 ("int(module)", lambda: [int(m) for m in pj.modules if m is not None])]
+        pure("project%d" % i, pj, calls)
+        # layout(): moves modules only (x, y); everything else is framed
+        before = projection.project_any(pj, spec)
+        try:
+            pj.layout()
+            after = projection.project_any(pj, spec)
+            for a_, b_ in zip(before["modules"], after["modules"]):
+                if a_["kind"] == "module":
+                    b_["x"], b_["y"] = a_["x"], a_["y"]
+            same = json.dumps(before, sort_keys=True) == json.dumps(after, sort_keys=True)
+            traces.append({"id": "layout/project%d" % i, "events": [{"op": "mutate", "kind": "layout-frame", "provenance": "layout()", "state_before": "x",
+                           "state_after": "x" if same else "changed", "bytes_before": "", "bytes_after": "", "diff": first_diff(before, after)}]})
+        except Exception:
+            pass
     cans = []
     c = json.loads(json.dumps(traces[0]))
     c["id"] = "canary-shared-cell"
